@@ -490,6 +490,13 @@ def main(check_fn, pid, level):
         rc = 2
         if ctx.violations:
             rc = ctx.finish()
+    except Exception as e:      # a fault of the harness itself is never a verdict about vflow
+        import traceback
+        print("INFRASTRUCTURE-ERROR property=%s: harness exception %r\n%s" % (pid, e, traceback.format_exc()[-1500:]), flush=True)
+        rc = 2
+        if ctx.violations:
+            ctx.assumptions.append("a later stage of this run ended with a harness exception: %r" % (e,))
+            rc = ctx.finish()
     finally:
         ctx.cleanup()
     sys.exit(rc)
